@@ -470,7 +470,26 @@ func proxyCallPassesExactlyTheArguments(c *core.Ctx) {
 					if _, k2 := bo.Y.(*ssa.Const); k2 {
 						continue
 					}
-					after = true
+					// the other side is what the loop counted (a value that is carried round a
+					// loop), not a number worked out beforehand from the method's signature: such a
+					// number is right only if it agrees with what the loop does for every parameter
+					// (a context parameter takes no script argument)
+					other := bo.X
+					if isLen(bo.X) {
+						other = bo.Y
+					}
+					counted := false
+					for _, o := range core.Origins(other) {
+						if add, ok := o.(*ssa.BinOp); ok && add.Op == token.ADD {
+							counted = true
+						}
+					}
+					if _, isPhi := other.(*ssa.Phi); isPhi {
+						counted = true
+					}
+					if counted {
+						after = true
+					}
 				}
 			}
 		}
